@@ -18,14 +18,20 @@ import (
 	"go/token"
 	"net"
 	"reflect"
+	"runtime"
 	"strconv"
 	"strings"
+	"sync"
+	"sync/atomic"
 	"testing"
+	"time"
 
 	"github.com/emersion/go-message/textproto"
 	"github.com/emersion/go-sasl"
 	"github.com/emersion/go-smtp"
+	"github.com/foxcpp/maddy/framework/buffer"
 	"github.com/foxcpp/maddy/framework/config"
+	"github.com/foxcpp/maddy/framework/exterrors"
 	"github.com/foxcpp/maddy/framework/module"
 	"github.com/foxcpp/maddy/internal/authz"
 	"github.com/foxcpp/maddy/internal/check/authorize_sender"
@@ -41,6 +47,8 @@ type c15Switch struct {
 	// the identity the endpoint gave the last message's connection (what authorize_sender sees)
 	sawMsg   bool
 	authUser string
+	// the neighbour family: the ordering gate of the current session (nil: no neighbour verdict)
+	gate *c15Gate
 }
 
 func (s *c15Switch) CheckStateForMsg(ctx context.Context, m *module.MsgMetadata) (module.CheckState, error) {
@@ -49,8 +57,147 @@ func (s *c15Switch) CheckStateForMsg(ctx context.Context, m *module.MsgMetadata)
 	if m.Conn != nil {
 		s.authUser = m.Conn.AuthUser
 	}
-	return s.cur.CheckStateForMsg(ctx, m)
+	st, err := s.cur.CheckStateForMsg(ctx, m)
+	if err != nil || s.gate == nil {
+		return st, err
+	}
+	return &c15GatedState{inner: st, gate: s.gate}, nil
 }
+
+// c15Gate puts the two checks of a check group (authorize_sender and its neighbour) in an order at
+// ONE stage: the check that is to finish second starts its work only after the method of the other one
+// has returned and the goroutine that ran it had time to hand its result to the runner.  Nothing is
+// asserted about time: on a correct runner the verdict is the same for every order; the waits only
+// steer which interleaving is observed (all of them bounded, a time-out is counted, not judged).
+type c15Gate struct {
+	stage, verdict, first string // stage "all": the neighbour gives its verdict at every stage
+	nOut, aOut            map[string]chan struct{}
+	nOnce, aOnce          map[string]*sync.Once
+	timeouts              int32
+	// what authorize_sender answered at the gated stage (q r i -), "" when it was not asked
+	aMu      sync.Mutex
+	aVerdict map[string]string
+}
+
+func c15VerdictLetter(res module.CheckResult) string {
+	switch {
+	case res.Quarantine:
+		return "q"
+	case res.Reject:
+		return "r"
+	case res.Reason != nil:
+		return "i"
+	}
+	return "-"
+}
+
+var c15Stages = []string{"conn", "sender", "rcpt", "body"}
+
+func (g *c15Gate) on(stage string) bool { return g.stage == stage || g.stage == "all" }
+
+func c15NewGate(cs *vc15.Case) *c15Gate {
+	if !cs.HasK {
+		return nil
+	}
+	g := &c15Gate{stage: cs.KStage, verdict: cs.KVerdict, first: cs.KFirst, nOut: map[string]chan struct{}{}, aOut: map[string]chan struct{}{},
+		nOnce: map[string]*sync.Once{}, aOnce: map[string]*sync.Once{}, aVerdict: map[string]string{}}
+	for _, st := range c15Stages {
+		g.nOut[st], g.aOut[st], g.nOnce[st], g.aOnce[st] = make(chan struct{}), make(chan struct{}), &sync.Once{}, &sync.Once{}
+	}
+	return g
+}
+
+func (g *c15Gate) await(ch chan struct{}) {
+	select {
+	case <-ch:
+	case <-time.After(2 * time.Second):
+		atomic.AddInt32(&g.timeouts, 1)
+		return
+	}
+	// the other check's method has returned; let its goroutine get through the runner's bookkeeping
+	for i := 0; i < 200; i++ {
+		runtime.Gosched()
+	}
+	time.Sleep(time.Millisecond)
+	for i := 0; i < 200; i++ {
+		runtime.Gosched()
+	}
+}
+
+type c15GatedState struct {
+	inner module.CheckState
+	gate  *c15Gate
+}
+
+func (g *c15GatedState) at(stage string, run func() module.CheckResult) module.CheckResult {
+	if !g.gate.on(stage) {
+		return run()
+	}
+	defer g.gate.aOnce[stage].Do(func() { close(g.gate.aOut[stage]) })
+	if g.gate.first == "n" {
+		g.gate.await(g.gate.nOut[stage])
+	}
+	res := run()
+	g.gate.aMu.Lock()
+	g.gate.aVerdict[stage] = c15VerdictLetter(res)
+	g.gate.aMu.Unlock()
+	return res
+}
+
+func (g *c15GatedState) CheckConnection(ctx context.Context) module.CheckResult {
+	return g.at("conn", func() module.CheckResult { return g.inner.CheckConnection(ctx) })
+}
+func (g *c15GatedState) CheckSender(ctx context.Context, from string) module.CheckResult {
+	return g.at("sender", func() module.CheckResult { return g.inner.CheckSender(ctx, from) })
+}
+func (g *c15GatedState) CheckRcpt(ctx context.Context, to string) module.CheckResult {
+	return g.at("rcpt", func() module.CheckResult { return g.inner.CheckRcpt(ctx, to) })
+}
+func (g *c15GatedState) CheckBody(ctx context.Context, h textproto.Header, b buffer.Buffer) module.CheckResult {
+	return g.at("body", func() module.CheckResult { return g.inner.CheckBody(ctx, h, b) })
+}
+func (g *c15GatedState) Close() error { return g.inner.Close() }
+
+// c15Neighbour is the second check of the group: a filter that knows nothing about entitlement and gives
+// the scripted verdict at the scripted stage (a reputation / content filter quarantining a message).
+type c15Neighbour struct {
+	gate *c15Gate
+}
+
+func (n *c15Neighbour) CheckStateForMsg(context.Context, *module.MsgMetadata) (module.CheckState, error) {
+	return &c15NeighbourState{gate: n.gate}, nil
+}
+
+type c15NeighbourState struct{ gate *c15Gate }
+
+func (n *c15NeighbourState) at(stage string) module.CheckResult {
+	g := n.gate
+	if g == nil || !g.on(stage) {
+		return module.CheckResult{}
+	}
+	defer g.nOnce[stage].Do(func() { close(g.nOut[stage]) })
+	if g.first == "a" {
+		g.await(g.aOut[stage])
+	}
+	reason := &exterrors.SMTPError{Code: 550, EnhancedCode: exterrors.EnhancedCode{5, 7, 0}, Message: "c15: the neighbour does not like it", CheckName: "c15_neighbour"}
+	switch g.verdict {
+	case "q":
+		return module.CheckResult{Reason: reason, Quarantine: true}
+	case "r":
+		return module.CheckResult{Reason: reason, Reject: true}
+	case "i":
+		return module.CheckResult{Reason: reason}
+	}
+	return module.CheckResult{}
+}
+
+func (n *c15NeighbourState) CheckConnection(context.Context) module.CheckResult     { return n.at("conn") }
+func (n *c15NeighbourState) CheckSender(context.Context, string) module.CheckResult { return n.at("sender") }
+func (n *c15NeighbourState) CheckRcpt(context.Context, string) module.CheckResult   { return n.at("rcpt") }
+func (n *c15NeighbourState) CheckBody(context.Context, textproto.Header, buffer.Buffer) module.CheckResult {
+	return n.at("body")
+}
+func (n *c15NeighbourState) Close() error { return nil }
 
 // c15Auth is the credential store of the endpoint: every account name has its own password
 // (vc15.Password); the catch-all "password" serves the sessions that are not about identities.  It
@@ -92,7 +239,7 @@ func c15FreePort(t *testing.T) string {
 	return strconv.Itoa(l.Addr().(*net.TCPAddr).Port)
 }
 
-func c15Session(t *testing.T, out *vh.Out, endp *Endpoint, store *c15Auth, tgt *testutils.Target, sw *c15Switch, cs *vc15.Case) {
+func c15Session(t *testing.T, out *vh.Out, endp *Endpoint, store *c15Auth, tgt *testutils.Target, sw *c15Switch, nb *c15Neighbour, cs *vc15.Case) {
 	op := vc15.SessionOpLine(cs)
 	// the identity family: the endpoint normalises login names with the setting of the case
 	// (auth_map_normalize), like the check does (auth_normalize); the client knows ONE password: that
@@ -113,6 +260,8 @@ func c15Session(t *testing.T, out *vh.Out, endp *Endpoint, store *c15Auth, tgt *
 		return
 	}
 	sw.cur = chk
+	gate := c15NewGate(cs)
+	sw.gate, nb.gate = gate, gate
 	before := len(tgt.Messages)
 
 	stage := "dial"
@@ -151,6 +300,43 @@ func c15Session(t *testing.T, out *vh.Out, endp *Endpoint, store *c15Auth, tgt *
 		cl.Quit()
 	}()
 	delivered := len(tgt.Messages) > before
+	if gate != nil {
+		out.Stat(fmt.Sprintf("session.neighbour.%s.%s.first-%s.delivered-%s", gate.stage, gate.verdict, gate.first, vc15.B01(delivered)))
+		if atomic.LoadInt32(&gate.timeouts) > 0 {
+			out.Stat("session.neighbour.order-not-steered(time-out)")
+		}
+		// (T2) the runner's merge against the model: the verdicts of the two checks at the gated stage in the order
+		// they finished -> does the command of that stage fail?  (sender: MAIL, body: the end of DATA)
+		gate.aMu.Lock()
+		av := gate.aVerdict[gate.stage]
+		gate.aMu.Unlock()
+		// (the endpoint reports a refusal of the sender stage at the first RCPT: defer_sender_reject is the default)
+		cmd := map[string]string{"sender": "rcpt", "body": "data"}[gate.stage]
+		if stage == "mail" && gate.stage == "sender" {
+			cmd = "mail"
+		}
+		if cmd != "" && av != "" && gate.first != "-" && atomic.LoadInt32(&gate.timeouts) == 0 {
+			order := gate.verdict + " " + av
+			if gate.first == "a" {
+				order = av + " " + gate.verdict
+			}
+			obs := "passed"
+			if stage == cmd {
+				obs = "refused"
+			}
+			out.Corr("C15 merge "+order, obs)
+			out.Stat("session.neighbour.merge." + strings.ReplaceAll(order, " ", "") + "." + obs)
+		}
+		if delivered {
+			// (frame) the neighbour's quarantine verdict must be on the delivered message; its rejection refuses
+			msg := tgt.Messages[len(tgt.Messages)-1]
+			if gate.verdict == "r" {
+				out.Violation("C15/session-delivered-though-a-check-rejected", op, "the neighbour check rejected at stage "+gate.stage)
+			} else if gate.verdict == "q" && !msg.MsgMeta.Quarantine {
+				out.Violation("C15/session-quarantine-verdict-lost", op, "the neighbour check quarantined at stage "+gate.stage+", the delivered message is not flagged")
+			}
+		}
+	}
 	if cs.HasZ {
 		// (T2) the AUTH PLAIN exchange against the model: refused, or accepted with which identity
 		obs := "auth-failed"
@@ -302,6 +488,28 @@ func TestVerifC15Session(t *testing.T) {
 			}
 			cases = append(cases, cs)
 		}
+		// a neighbour check in the same check group: fixed grid, and (own stream) every fourth generated session
+		cases = append(cases, vc15.FixedNeighbour()...)
+		rk := vh.NewRng(vh.Seed() + 151530)
+		for _, cs := range cases[len(cases)-len(vc15.FixedNeighbour())-n : len(cases)-len(vc15.FixedNeighbour())] {
+			if rk.Chance(25) {
+				vc15.GenNeighbour(rk.Fork(), cs)
+			}
+		}
+		// and sessions of their own, refusing configurations, the neighbour mostly quarantining
+		for i, nk := 0, n/6; i < nk; i++ {
+			cs := vc15.GenCase(rk.Fork(), true)
+			cs.Conn = true
+			cs.UA, cs.NA, cs.EA = "r", "r", "r"
+			vc15.GenNeighbour(rk.Fork(), cs)
+			cases = append(cases, cs)
+		}
+		// table.email_with_domain as entitlement table, account names of mixed kinds
+		cases = append(cases, vc15.FixedWithDomain()...)
+		rw := vh.NewRng(vh.Seed() + 151521)
+		for i, nw := 0, n/8; i < nw; i++ {
+			cases = append(cases, vc15.GenWithDomainCase(rw.Fork(), true))
+		}
 		// the identity family: AUTH PLAIN with every kind of authorization identity
 		cases = append(cases, vc15.FixedAuthz()...)
 		rz := vh.NewRng(vh.Seed() + 151516)
@@ -329,9 +537,10 @@ func TestVerifC15Session(t *testing.T) {
 		tgt := testutils.Target{}
 		sw := &c15Switch{}
 		store := &c15Auth{}
-		endp := testEndpoint(t, kind, store, &tgt, []module.Check{sw}, nil)
+		nb := &c15Neighbour{}
+		endp := testEndpoint(t, kind, store, &tgt, []module.Check{nb, sw}, nil)
 		for _, cs := range mine {
-			c15Session(t, out, endp, store, &tgt, sw, cs)
+			c15Session(t, out, endp, store, &tgt, sw, nb, cs)
 			out.Stat("session.endpoint." + kind)
 		}
 		endp.Close()
